@@ -730,7 +730,7 @@ Definition alloc_reply (st : state) (r : round) (err base want : Z) (hint : list
     let valid :=
       (Z.of_nat (length encs) * (RS_N + RS_M) =? want) &&
       forallb (fun '(hosts, cs) =>
-                 ((Z.of_nat (length hosts) =? 0) && (Z.of_nat (length known) <? RS_N + RS_M)) ||
+                 (Z.of_nat (length hosts) =? 0) ||   (* allocateTS failed: an oracle input (placement is C17's) *)
                  ((Z.of_nat (length hosts) =? RS_N + RS_M) && subset hosts known && Cluster.Model.distinct hosts &&
                   (Z.of_nat (length cs) =? RS_N) && forallb (fun '(tk, o) => elig tk && (o =? 0)) cs)) encs &&
       (fix nodup (l : list tkt) := match l with [] => true | x :: t => negb (Cluster.Model.tmem x t) && nodup t end) allt in
@@ -1146,6 +1146,21 @@ Definition step_fx (fx : fixes) (st0 : state) (ev : list Z) : state * list Z :=
         | blob :: tract :: off :: len :: nt :: tries => (st, step_read st blob tract off len (fst (Cluster.Model.take nt tries)))
         | _ => (st, [-1])
         end
+      else if c =? 81 then
+        (* compositional harness: the scripted tpContext answered this call of the real packer with 'res' *)
+        match Cluster.Model.parse_rpc a with
+        | Some (rp, r1) =>
+            let '(res, r2) := match r1 with n :: t => Cluster.Model.take n t | [] => ([], []) end in
+            let hint := match r2 with n :: t => fst (Cluster.Model.take n t) | [] => [] end in
+            match find_pent (s_pool st) rp with
+            | None => (st, [-2])
+            | Some e => let st1 := deliver fx st e res None hint in (st1, fin_section st1)
+            end
+        | None => (st, [-1])
+        end
+      else if c =? 82 then
+        (* compositional harness: the calls of the round still unanswered (stat, pack, encode, bump, alloc, commit) *)
+        (st, [Z.of_nat (length (filter (fun e => (0 <? p_owner e) && negb (Cluster.Model.k_kind (p_rpc e) =? K_GCTract)) (s_pool st)))])
       else if c =? 31 then
         match a with
         | [blob] => match Cluster.Model.zget (s_blobs st) blob with
